@@ -13,25 +13,28 @@ import (
 	beacon "github.com/oasisprotocol/oasis-core/go/beacon/api"
 	"github.com/oasisprotocol/oasis-core/go/common/crypto/signature"
 	"github.com/oasisprotocol/oasis-core/go/common/node"
+	"github.com/oasisprotocol/oasis-core/go/common/quantity"
 	"github.com/oasisprotocol/oasis-core/go/common/version"
 	"github.com/oasisprotocol/oasis-core/go/consensus/api/transaction"
 	registryState "github.com/oasisprotocol/oasis-core/go/consensus/cometbft/apps/registry/state"
 	registry "github.com/oasisprotocol/oasis-core/go/registry/api"
 	scheduler "github.com/oasisprotocol/oasis-core/go/scheduler/api"
+	staking "github.com/oasisprotocol/oasis-core/go/staking/api"
 
 	"verif/sim/core"
 )
 
 func init() {
 	RegisterWorkload("C14", &Workload{
-		Kinds:  []string{"c14_regcompute", "c14_regcompute", "c14_regcompute", "c14_regruntime", "c14_unfreeze", "c14_mixroles"},
-		Weight: 18,
+		Kinds:  []string{"c14_regcompute", "c14_regcompute", "c14_regcompute", "c14_regruntime", "c14_unfreeze", "c14_mixroles", "c14_fundnode"},
+		Weight: 20,
 		Tune:   c14Tune,
 	})
 	RegisterTxKind("c14_regcompute", c14RegCompute)
 	RegisterTxKind("c14_mixroles", c14MixRoles)
 	RegisterTxKind("c14_regruntime", c14RegRuntime)
 	RegisterTxKind("c14_unfreeze", c14Unfreeze)
+	RegisterTxKind("c14_fundnode", c14FundNode)
 }
 
 func c14Tune(r *core.Rand, k *ChainKnobs) {
@@ -51,6 +54,11 @@ func c14Tune(r *core.Rand, k *ChainKnobs) {
 	}
 	if len(g.EntityEscrow) > 0 {
 		g.EntityEscrow[0] += g.ThresholdNode
+	}
+	// Node registrations are signed (and their fees paid) by the node's own account, which starts
+	// empty: make fee-less registrations possible in half of the runs (c14_fundnode covers the rest).
+	if r.Chance(1, 2) {
+		g.MinTransact, g.MinGasPrice = 0, 0
 	}
 	// More elections per run: shorter epochs, and more often more validators than seats.
 	if r.Chance(1, 2) {
@@ -196,4 +204,20 @@ func c14Unfreeze(w *World, op TxOp, v TxView, _ signature.Signer, fee *transacti
 	signer := w.Entities[nk.Entity].Signer
 	nonce := uint64(int64(v.NextNonce(signer.Public())) + int64(op.NonceOff))
 	return registry.NewUnfreezeNodeTx(nonce, fee, &registry.UnfreezeNode{NodeID: nk.Identity.NodeSigner.Public()}), signer, nil
+}
+
+// c14FundNode transfers a little from the signer to a node's own account, so that the node can
+// pay for its registrations.
+func c14FundNode(w *World, op TxOp, v TxView, signer signature.Signer, fee *transaction.Fee) (*transaction.Transaction, signature.Signer, error) {
+	var all []*NodeKeys
+	for _, ek := range w.Entities {
+		all = append(all, ek.Nodes...)
+	}
+	if len(all) == 0 {
+		return nil, nil, nil
+	}
+	nk := all[op.Arg%len(all)]
+	nonce := uint64(int64(v.NextNonce(signer.Public())) + int64(op.NonceOff))
+	amt := quantity.NewFromUint64(uint64(200 + (op.Arg>>6)%800))
+	return staking.NewTransferTx(nonce, fee, &staking.Transfer{To: staking.NewAddress(nk.Identity.NodeSigner.Public()), Amount: *amt}), signer, nil
 }
